@@ -59,6 +59,9 @@ func TestC04(t *testing.T) {
 	// distinct MACs / package-level Sum and Verify used by several goroutines at once
 	c04Concurrent(m, e.defName)
 
+	// the constructor must not retain the caller's key; Write must not retain the caller's chunk
+	c04Retention(m, e.defName)
+
 	// every length 0..130 (all residues mod 16, block-count boundaries), 3 keys each
 	m.Each("lens", 131*3, func(i int64, r *rand.Rand) {
 		n := int(i % 131)
